@@ -9,6 +9,7 @@ import Nstd.Hash.PtrModel
     new t cap | newdef t | copy t | assign t | append t k v | prepend t k v | insert t pos k v
     remove t k | removeAt t pos | removeVal t pos | removeFront t | removeBack t | clear t | swap t
     appendAll t | removeAll t | setval t k v | hashstr <hex>
+    origin n                             String-key build: form of the key arguments (owned, spare capacity, attached view, shared, …)
     hashnum w s x                        integral hash overloads: width, signedness, bit pattern
     wb t                                 white-box: capacity, bucket chains, free list, order list as item ids
 
@@ -31,10 +32,19 @@ structure DState where
   pst : Ptr.PState
 
 /-- the text of key number `k` in the String-key build of the harness (5 characters + terminator) -/
-def keyText (k : Nat) : List Nat := [97 + k % 3, 48 + k / 3 % 4, 98, 48 + k / 12 % 10, 99, 0]
+def keyText (k : Nat) : List Nat :=
+  if k = 0 then [] else if k = 1 then [120]
+  else [97 + (k - 2) % 3, 48 + (k - 2) / 3 % 4, 98, 48 + (k - 2) / 12 % 10, 99]
+
+/-- `hash(const String&)` of a text, computed through the view model for an owned / literal string (terminated in place)
+    and for a view attached inside a larger text (neighbours not NUL); `none` if the two differ -/
+def hashText (t : List Nat) : Option Nat :=
+  match hashView ⟨t ++ [0], 0, t.length⟩, hashView ⟨[126] ++ t ++ [126, 126], 1, t.length⟩ with
+  | some a, some b => if a = b then some a else none
+  | _, _ => none
 
 def hashFn (mode : Nat) (k : Nat) : Nat :=
-  if mode = 5 then (hashString (keyText k) 5).getD 0     -- `hash(const String&)` of the key text
+  if mode = 5 then (hashText (keyText k)).getD 0     -- `hash(const String&)` of the key text
   else if mode = 0 then k
   else if mode = 1 then 7
   else if mode = 2 then k % 2
@@ -154,6 +164,11 @@ def stepLine (d : DState) (ws : List String) : DState × String :=
     match tab t with
     | some t => (d, both (whiteBox (d.st.get t)) (whiteBoxPtr (d.pst.get t)))
     | none => (d, "bad-op")
+  | ["origin", n] =>
+    -- the form in which the String-key build materialises key arguments: not observable
+    match n.toNat? with
+    | some _ => (d, obs d "unit")
+    | none => (d, "bad-op")
   | ["hashnum", w, sg, x] =>
     match w.toNat?, sg.toNat?, x.toNat? with
     | some w, some sg, some x =>
@@ -162,7 +177,7 @@ def stepLine (d : DState) (ws : List String) : DState × String :=
   | ["hashstr", x] =>
     match fromHex x with
     | some bs =>
-      (d, match hashString (bs ++ [0]) bs.length with
+      (d, match hashText bs with
           | some v => s!"num {v}"
           | none => "FAULT")
     | none => (d, "bad-op")
